@@ -77,17 +77,17 @@ theorem spineTokens_sub (ctx : Option (Nat × TSlots)) {t : Nat} (ht : t ∈ spi
         | tuple l => simp at ht
         | list k l => simp at ht
 
-/-- **Applying a variable does not change the variable, and the result shares nothing with it**: if the
-variable's objects and the value's objects are disjoint, a call writes to no object of `var_context`, no object of
-`var_context` is reachable from the returned context, and the same separation holds again for the returned
-value (so it holds for every later application: `callsT_variable_untouched`). -/
-theorem callT_variable_untouched {fx : Bool} {next vt : Nat} {vc : TSlots} {ctx : Option (Nat × TSlots)} {r : CallRes}
-    (hs : Sep next vt vc ctx) (h : callT names fx next vt vc ctx = .ok r) :
-    (∀ t ∈ r.writes, t ∉ tokens (.dict vt vc)) ∧
-    (∀ t ∈ tokens (.dict r.ctxTok r.ctx), t ∉ tokens (.dict vt vc)) ∧
-    Sep r.next vt vc (some (r.ctxTok, r.ctx)) := by
+/-- **Applying a variable does not change any variable that shares nothing with the value** — the applied one
+(`vt`/`vc`) or any other (`wt`/`wc`): if the objects of `wc` and the value's objects are disjoint, the call writes to
+no object of `wc`, no object of `wc` is reachable from the returned context, and the same separation holds again for
+the returned value. -/
+theorem callT_other_untouched {fx : Bool} {next vt wt : Nat} {vc wc : TSlots} {ctx : Option (Nat × TSlots)} {r : CallRes}
+    (hs : Sep next wt wc ctx) (h : callT names fx next vt vc ctx = .ok r) :
+    (∀ t ∈ r.writes, t ∉ tokens (.dict wt wc)) ∧
+    (∀ t ∈ tokens (.dict r.ctxTok r.ctx), t ∉ tokens (.dict wt wc)) ∧
+    Sep r.next wt wc (some (r.ctxTok, r.ctx)) := by
   obtain ⟨h1, h2, h3, _⟩ := callT_spec h
-  have hnot : ∀ t, (next ≤ t ∨ t ∈ ctxTokens ctx) → t ∉ tokens (.dict vt vc) := by
+  have hnot : ∀ t, (next ≤ t ∨ t ∈ ctxTokens ctx) → t ∉ tokens (.dict wt wc) := by
     intro t ht hv
     rcases ht with ht | ht
     · have := hs.varOld t hv; omega
@@ -98,6 +98,36 @@ theorem callT_variable_untouched {fx : Bool} {next vt : Nat} {vc : TSlots} {ctx 
     · exact Or.inr (spineTokens_sub ctx h4)
   · have := hs.varOld t ht; omega
   · exact hnot t (h2 t (by simpa [ctxTokens] using hin)) ht
+
+/-- **Applying a variable does not change the variable, and the result shares nothing with it** -/
+theorem callT_variable_untouched {fx : Bool} {next vt : Nat} {vc : TSlots} {ctx : Option (Nat × TSlots)} {r : CallRes}
+    (hs : Sep next vt vc ctx) (h : callT names fx next vt vc ctx = .ok r) :
+    (∀ t ∈ r.writes, t ∉ tokens (.dict vt vc)) ∧
+    (∀ t ∈ tokens (.dict r.ctxTok r.ctx), t ∉ tokens (.dict vt vc)) ∧
+    Sep r.next vt vc (some (r.ctxTok, r.ctx)) :=
+  callT_other_untouched hs h
+
+/-- **… in a chain of different variables, none of them is changed by any application** (`Sequence(v₁,…,vₙ)` on
+identities: the objects `cvar[type_] = old_cvar[type_]` moves from one step's context into the next one's are
+objects of the copies, never of a variable) -/
+theorem seqT_variables_untouched (fx : Bool) (ws : List (Nat × TSlots)) :
+    ∀ (vars : List (Nat × TSlots)) (next : Nat) (ctx : Option (Nat × TSlots)),
+      (∀ w ∈ ws, Sep next w.1 w.2 ctx) →
+      ∀ r, .ok r ∈ seqT names fx vars next ctx → ∀ w ∈ ws,
+        (∀ t ∈ r.writes, t ∉ tokens (.dict w.1 w.2)) ∧ (∀ t ∈ tokens (.dict r.ctxTok r.ctx), t ∉ tokens (.dict w.1 w.2))
+  | [], _, _, _, r, hr, _, _ => by simp [seqT] at hr
+  | (vt, vc) :: rest, next, ctx, hs, r, hr, w, hw => by
+    simp only [seqT] at hr
+    cases hc : callT names fx next vt vc ctx with
+    | error e => simp [hc] at hr
+    | ok r1 =>
+      simp only [hc, List.mem_cons] at hr
+      rcases hr with hr | hr
+      · cases hr
+        have := callT_other_untouched (hs w hw) hc
+        exact ⟨this.1, this.2.1⟩
+      · exact seqT_variables_untouched fx ws rest r1.next _
+          (fun w' hw' => (callT_other_untouched (hs w' hw') hc).2.2) r hr w hw
 
 /-- **… however often it is applied, each time to the value the previous application returned** -/
 theorem callsT_variable_untouched (fx : Bool) (vt : Nat) (vc : TSlots) :
@@ -139,5 +169,40 @@ theorem callT_erase (fx : Bool) (next vt : Nat) (vc : TSlots) (ctx : Option (Nat
   | none => simp only []; rw [callCore_erase, eraseS_replicate]
   | some p => obtain ⟨c, cs⟩ := p; simp only []; rw [callCore_erase]
 
+
+/-- **Repeated application to equal values gives equal results**: whatever the identities of the objects and the
+state of the counter, two applications of variables with equal `var_context` values to contexts with equal values
+give equal results (or the same exception) -/
+theorem callT_results_equal (fx : Bool) (n1 n2 vt1 vt2 c1 c2 : Nat) (vc1 vc2 cs1 cs2 : TSlots)
+    (hv : eraseS vc1 = eraseS vc2) (hc : eraseS cs1 = eraseS cs2) :
+    eraseR (callT names fx n1 vt1 vc1 (some (c1, cs1))) = eraseR (callT names fx n2 vt2 vc2 (some (c2, cs2))) := by
+  rw [callT_erase, callT_erase]
+  simp only [hv, hc]
+
+/-! ### a concrete instance (non-vacuity of `Sep`, `callT_spec`, `callT_variable_untouched`, `callT_frame`)
+
+Alphabet `compose, name, t0, ta, type, variable`; the variable `Variable("v", f, type="ta")` (objects 0, 1) applied to
+a value whose context (object 2) carries `context.variable = {"name": "z", "type": "t0", "t0": {"name": "z"}}`
+(objects 3, 4); counter 5. -/
+
+def exN : List String := ["compose", "name", "t0", "ta", "type", "variable"]
+def exVc : TSlots := [none, some (.str "v"), none, some (.dict 1 [none, some (.str "v"), none, none, none, none]),
+  some (.str "ta"), none]
+def exCs : TSlots := [none, none, none, none, none,
+  some (.dict 3 [none, some (.str "z"), some (.dict 4 [none, some (.str "z"), none, none, none, none]), none,
+    some (.str "t0"), none])]
+
+example : sepB 5 0 exVc (some (2, exCs)) = true := by decide
+
+/-- the call succeeds; it creates the copy (objects 5, 6) and the list `['t0', 'ta']` (object 7), writes to the old
+`context.variable` (3: gets `compose`), the new list (7), the copy (5) and the context (2) — to nothing of the variable
+(0, 1); the sub-context of `t0` in the result is the old object 4 -/
+example : (match callT exN true 5 0 exVc (some (2, exCs)) with
+    | .ok r => some (r.writes, r.next, getT r.ctx 5)
+    | .error _ => none) =
+    some ([3, 7, 5, 2], 8,
+      some (.dict 5 [some (.list 7 [.str "t0", .str "ta"]), some (.str "v"),
+        some (.dict 4 [none, some (.str "z"), none, none, none, none]),
+        some (.dict 6 [none, some (.str "v"), none, none, none, none]), some (.str "ta"), none])) := by rfl
 
 end Lena.C14.Tok
